@@ -58,3 +58,131 @@ impl<'de> Visitor<'de> for UV {
         Ok(Universal)
     }
 }
+
+/// A serde target that keeps what it is offered (through deserialize_any), for comparisons.
+#[derive(Debug, Clone, PartialEq)]
+pub enum Captured {
+    Bool(bool),
+    Int(i128),
+    F32(u32),
+    F64(u64),
+    Char(char),
+    Str(String),
+    Bytes(Vec<u8>),
+    Unit,
+    Some(Box<Captured>),
+    Seq(Vec<Captured>),
+    Map(Vec<(Captured, Captured)>),
+    Variant(Box<Captured>),
+}
+
+impl<'de> Deserialize<'de> for Captured {
+    fn deserialize<D: Deserializer<'de>>(d: D) -> Result<Self, D::Error> {
+        d.deserialize_any(CV)
+    }
+}
+
+struct CV;
+
+macro_rules! cap_int {
+    ($($f:ident : $t:ty),*) => { $( fn $f<E: serde::de::Error>(self, v: $t) -> Result<Captured, E> { Ok(Captured::Int(v as i128)) } )* }
+}
+
+impl<'de> Visitor<'de> for CV {
+    type Value = Captured;
+    fn expecting(&self, f: &mut fmt::Formatter) -> fmt::Result {
+        f.write_str("anything")
+    }
+    cap_int!(visit_i8: i8, visit_i16: i16, visit_i32: i32, visit_i64: i64, visit_i128: i128,
+             visit_u8: u8, visit_u16: u16, visit_u32: u32, visit_u64: u64, visit_u128: u128);
+    fn visit_bool<E: serde::de::Error>(self, v: bool) -> Result<Captured, E> {
+        Ok(Captured::Bool(v))
+    }
+    fn visit_f32<E: serde::de::Error>(self, v: f32) -> Result<Captured, E> {
+        Ok(Captured::F32(v.to_bits()))
+    }
+    fn visit_f64<E: serde::de::Error>(self, v: f64) -> Result<Captured, E> {
+        Ok(Captured::F64(v.to_bits()))
+    }
+    fn visit_char<E: serde::de::Error>(self, v: char) -> Result<Captured, E> {
+        Ok(Captured::Char(v))
+    }
+    fn visit_str<E: serde::de::Error>(self, v: &str) -> Result<Captured, E> {
+        Ok(Captured::Str(v.to_string()))
+    }
+    fn visit_string<E: serde::de::Error>(self, v: String) -> Result<Captured, E> {
+        Ok(Captured::Str(v))
+    }
+    fn visit_bytes<E: serde::de::Error>(self, v: &[u8]) -> Result<Captured, E> {
+        Ok(Captured::Bytes(v.to_vec()))
+    }
+    fn visit_byte_buf<E: serde::de::Error>(self, v: Vec<u8>) -> Result<Captured, E> {
+        Ok(Captured::Bytes(v))
+    }
+    fn visit_none<E: serde::de::Error>(self) -> Result<Captured, E> {
+        Ok(Captured::Unit)
+    }
+    fn visit_unit<E: serde::de::Error>(self) -> Result<Captured, E> {
+        Ok(Captured::Unit)
+    }
+    fn visit_some<D: Deserializer<'de>>(self, d: D) -> Result<Captured, D::Error> {
+        Ok(Captured::Some(Box::new(Captured::deserialize(d)?)))
+    }
+    fn visit_newtype_struct<D: Deserializer<'de>>(self, d: D) -> Result<Captured, D::Error> {
+        Captured::deserialize(d)
+    }
+    fn visit_seq<A: SeqAccess<'de>>(self, mut seq: A) -> Result<Captured, A::Error> {
+        let mut out = Vec::new();
+        while let Some(x) = seq.next_element::<Captured>()? {
+            out.push(x);
+        }
+        Ok(Captured::Seq(out))
+    }
+    fn visit_map<A: MapAccess<'de>>(self, mut map: A) -> Result<Captured, A::Error> {
+        let mut out = Vec::new();
+        while let Some(kv) = map.next_entry::<Captured, Captured>()? {
+            out.push(kv);
+        }
+        Ok(Captured::Map(out))
+    }
+    fn visit_enum<A: EnumAccess<'de>>(self, data: A) -> Result<Captured, A::Error> {
+        let (tag, variant) = data.variant::<Captured>()?;
+        variant.unit_variant()?;
+        Ok(Captured::Variant(Box::new(tag)))
+    }
+}
+
+/// A target that wants only every second entry of the outermost map (the fields of a record): the entries at
+/// positions with index % 2 == SKIP are asked for as IgnoredAny, the others are kept.  What a struct that lacks
+/// some fields of the writer's record does.
+#[derive(Debug)]
+pub struct Alternate<const SKIP: usize>(pub Vec<(Captured, Option<Captured>)>);
+
+impl<'de, const SKIP: usize> Deserialize<'de> for Alternate<SKIP> {
+    fn deserialize<D: Deserializer<'de>>(d: D) -> Result<Self, D::Error> {
+        d.deserialize_any(AV::<SKIP>)
+    }
+}
+
+struct AV<const SKIP: usize>;
+
+impl<'de, const SKIP: usize> Visitor<'de> for AV<SKIP> {
+    type Value = Alternate<SKIP>;
+    fn expecting(&self, f: &mut fmt::Formatter) -> fmt::Result {
+        f.write_str("a map")
+    }
+    fn visit_map<A: MapAccess<'de>>(self, mut map: A) -> Result<Alternate<SKIP>, A::Error> {
+        let mut out = Vec::new();
+        let mut i = 0usize;
+        while let Some(k) = map.next_key::<Captured>()? {
+            if i % 2 == SKIP {
+                map.next_value::<serde::de::IgnoredAny>()?;
+                out.push((k, None));
+            } else {
+                out.push((k, Some(map.next_value::<Captured>()?)));
+            }
+            i += 1;
+        }
+        Ok(Alternate(out))
+    }
+}
